@@ -154,9 +154,69 @@ func (p c16) usesWhenOnContainer(c *core.Ctx) {
 	}
 }
 
+// whenStacked: a node under several conditions (its own when, the when of the uses that brings it, the when of an augment that adds
+// it) is visible only if all of them hold.
+func (p c16) whenStacked(c *core.Ctx) {
+	for _, sc := range []struct{ name, body string }{
+		{"uses+own", "leaf o { type int32; } leaf p { type int32; } grouping gg { leaf g { when \"p>5\"; type string; } } uses gg { when \"o>5\"; } leaf q { type string; }"},
+		{"uses+uses", "leaf o { type int32; } leaf p { type int32; } grouping g1 { leaf g { type string; } } grouping gg { uses g1 { when \"p>5\"; } } uses gg { when \"o>5\"; } leaf q { type string; }"},
+		{"uses+own-leaf-list", "leaf o { type int32; } leaf p { type int32; } grouping gg { leaf-list g { when \"p>5\"; type string; } } uses gg { when \"o>5\"; } leaf q { type string; }"},
+		{"uses+own-container", "leaf o { type int32; } leaf p { type int32; } grouping gg { container g { when \"../p>5\"; leaf z { type string; } } } uses gg { when \"o>5\"; } leaf q { type string; }"},
+		{"uses+own-list", "leaf o { type int32; } leaf p { type int32; } grouping gg { list g { when \"../p>5\"; key z; leaf z { type string; } } } uses gg { when \"o>5\"; } leaf q { type string; }"},
+		{"augment+own-container", "container k { leaf o { type int32; } leaf p { type int32; } } augment \"/k\" { when \"o>5\"; container g { when \"../p>5\"; leaf z { type string; } } } leaf q { type string; }"},
+		{"augment+own", "container k { leaf o { type int32; } leaf p { type int32; } } augment \"/k\" { when \"o>5\"; leaf g { when \"p>5\"; type string; } } leaf q { type string; }"},
+	} {
+		m, err := parser.LoadModuleFromString(nil, "module m { namespace \"urn:m\"; prefix m; revision 2020-01-01; "+sc.body+" }")
+		if err != nil {
+			c.Violate("when/load-error/stacked/"+sc.name, "load: %v\n%s", err, sc.body)
+			continue
+		}
+		for _, o := range []int{9, 1} {
+			for _, pv := range []int{9, 1} {
+				c.Eval()
+				c.Shape("when-stacked/%s/%v/%v", sc.name, o > 5, pv > 5)
+				gv := "\"x\""
+				if strings.Contains(sc.body, "leaf-list g") {
+					gv = "[\"x\"]"
+				} else if strings.Contains(sc.body, "container g") {
+					gv = "{\"z\":\"x\"}"
+				} else if strings.Contains(sc.body, " list g {") {
+					gv = "[{\"z\":\"x\"}]"
+				}
+				doc := fmt.Sprintf("{\"o\":%d,\"p\":%d,\"g\":%s,\"q\":\"keep\"}", o, pv, gv)
+				if strings.Contains(sc.body, "container k") {
+					doc = fmt.Sprintf("{\"k\":{\"o\":%d,\"p\":%d,\"g\":%s},\"q\":\"keep\"}", o, pv, gv)
+				}
+				n, _ := nodeutil.ReadJSON(doc)
+				var got string
+				var rerr error
+				if c.Guard("stacked when", func() { got, rerr = nodeutil.WriteJSON(node.NewBrowser(m, n).Root()) }) {
+					continue
+				}
+				want := o > 5 && pv > 5
+				visible := strings.Contains(got, "\"g\"")
+				if strings.Contains(sc.body, " list g {") {
+					// the condition of a list holds or fails for each entry; a list without visible entries may still be an empty array
+					visible = strings.Contains(got, "\"g\":[{")
+				}
+				if rerr != nil || visible != want || !strings.Contains(got, "keep") {
+					cls := "false-but-visible"
+					if want {
+						cls = "true-but-hidden"
+					}
+					c.Violate("when/"+cls+"/stacked/"+sc.name, "o=%d p=%d: g visible=%v (want %v: both conditions must hold), error=%v\nschema: %s\ndata: %s\noutput: %s", o, pv, visible, want, rerr, sc.body, doc, got)
+				}
+			}
+		}
+	}
+}
+
 func (p c16) Run(c *core.Ctx, idx int) {
 	ts := c16types()
 	t := ts[idx%len(ts)]
+	if idx%97 == 1 {
+		p.whenStacked(c)
+	}
 	if idx%97 == 0 {
 		p.usesWhenOnContainer(c)
 	}
